@@ -3,6 +3,7 @@ package main
 import (
 	"fmt"
 	"go/types"
+	"os"
 	"regexp"
 	"strings"
 
@@ -261,8 +262,7 @@ func runC16(p *Program, r *Report) {
 			r.Check(ok && k.Value == nil, "C16.R1", fmt.Sprintf("%s#return%d", cn, i), p.Pos(ret.Pos()), "success return with nil error", "the constructed rule is returned with a non-nil error")
 			continue
 		}
-		k, ok := ret.Results[0].(*ssa.Const)
-		r.Check(ok && k.Value == nil, "C16.R1", fmt.Sprintf("%s#return%d", cn, i), p.Pos(ret.Pos()), "failure returns the zero StyleSheet", "a path that bypasses the checked construction returns a non-zero StyleSheet")
+		r.Check(zeroResultAt(ret, 0), "C16.R1", fmt.Sprintf("%s#return%d", cn, i), p.Pos(ret.Pos()), "failure returns the zero StyleSheet", "a path that bypasses the checked construction returns a non-zero StyleSheet")
 	}
 	// presence of the bracket-balance guard on a stripped selector, and its table
 	site.Cond.Atoms(func(a *LAtom) {})
@@ -291,7 +291,26 @@ func runC16(p *Program, r *Report) {
 		// the closer→opener table the matcher reads (found by data flow, not by name)
 		var tables []*ssa.Global
 		seenG := map[*ssa.Global]bool{}
-		for _, b := range balanceFn.Blocks {
+		// the matcher and the helpers of the repository it calls (classifiers, stack operations)
+		fns := []*ssa.Function{balanceFn}
+		seenF := map[*ssa.Function]bool{balanceFn: true}
+		for i := 0; i < len(fns) && i < 16; i++ {
+			for _, b := range fns[i].Blocks {
+				for _, in := range b.Instrs {
+					if c, ok := in.(ssa.CallInstruction); ok {
+						if g := staticCallee(c.Common()); g != nil && !seenF[g] && g.Blocks != nil && g.Pkg != nil && strings.HasPrefix(g.Pkg.Pkg.Path(), modulePath) {
+							seenF[g] = true
+							fns = append(fns, g)
+						}
+					}
+				}
+			}
+		}
+		var allBlocks []*ssa.BasicBlock
+		for _, f := range fns {
+			allBlocks = append(allBlocks, f.Blocks...)
+		}
+		for _, b := range allBlocks {
 			for _, in := range b.Instrs {
 				if u, ok := in.(*ssa.UnOp); ok {
 					if g, ok := u.X.(*ssa.Global); ok && !seenG[g] {
@@ -339,6 +358,10 @@ func runC16(p *Program, r *Report) {
 	}
 	safe := safeSelectorDFA(L.A)
 	badLang := relang.Minus(A, safe)
+	if os.Getenv("C16_DEBUG") != "" {
+		fmt.Println("C16 guards:", per[0].String())
+		fmt.Println("C16 inexact:", s.Inexact)
+	}
 	c := cn + "#accepted⊆SAFE_SEL"
 	if _, found := badLang.Witness(); !found {
 		r.OK("C16.R2", c, site.Pos, "over-approximated accepted selectors "+per[0].String()+" ⊆ SAFE_SEL (no { } ; @ \\ < comment, open or bad string, or url( token outside strings)")
